@@ -299,6 +299,37 @@ def run_config_cells(impl, out):
             V(out, impl, 'disallowed_transport_used', 'transports=polling', 'WebSocket open accepted', case)
     finally:
         w.teardown()
+    # the same for every shape of the upgrade request (transport value x Upgrade / Connection header spelling x sid or not),
+    # each followed by the complete handshake a client would attempt
+    for tq in ('websocket', 'polling'):
+        for up in ('websocket', 'WebSocket', 'WEBSOCKET', 'Websocket'):
+            for conn in ('Upgrade', 'upgrade', 'keep-alive, Upgrade'):
+                for with_sid in (True, False):
+                    w = peer.make_world(impl, server_kwargs=dict(transports=['polling']))
+                    try:
+                        sid = peer.sid_of(peer.open_polling(w))
+                        w.call('send', sid, 'queued')
+                        w.run()
+                        before = len(w.table_sids())
+                        s = w.ws('EIO=4&transport=%s%s' % (tq, '&sid=' + sid if with_sid else ''), headers={'Upgrade': up, 'Connection': conn})
+                        w.run()
+                        for f in ('2probe', '5'):
+                            if s.accepted and not s.server_closed:
+                                w.ws_send(s, f)
+                                w.run()
+                        n += 1
+                        case = {'cfg': 'polling_only', 'events': ['2probe', '5'], 'transport_query': tq, 'upgrade': up, 'connection': conn, 'sid': with_sid}
+                        fr = peer.ws_frames(s)
+                        grew = len(w.table_sids()) != before and not (tq == 'polling' and not with_sid)      # a polling open is legitimate
+                        # (an HTTP 200 answered on a websocket scope shows as an accepted but silent socket in the ASGI world: not a use of the transport)
+                        if (s.accepted and tq == 'websocket') or fr or w.transport(sid) != 'polling' or grew or \
+                                any(w.transport(x) != 'polling' for x in w.live_sids()):
+                            V(out, impl, 'disallowed_transport_used', 'transports=polling',
+                              'request transport=%s Upgrade: %s Connection: %s %s: accepted=%s, frames written to the socket %r, transport() = %r, '
+                              'sessions %d -> %d' % (tq, up, conn, 'with sid' if with_sid else 'without sid', s.accepted, fr,
+                                                     w.transport(sid), before, len(w.table_sids())), case)
+                    finally:
+                        w.teardown()
     # websocket-only server
     w = peer.make_world(impl, server_kwargs=dict(transports=['websocket']))
     try:
